@@ -50,6 +50,35 @@ enum Carrier {
     MidEntry,
     CycleRef4,
     CycleRefAddrExpr,
+    // further reference-carrying operations and location-list entry kinds (added after an
+    // independent review of the filter listed operations it does not scan)
+    ExprImplicitPointer,
+    ExprEntryValueNested,
+    ExprParameterRef,
+    ExprRegvalType,
+    ExprDerefType,
+    ExprConvert,
+    ExprReinterpret,
+    LocListDefault,
+    LocListEmptyRange,
+    LocListTombstone,
+    LocListSecondEntry,
+}
+const MORE_CARRIERS: [Carrier; 11] = [
+    Carrier::ExprImplicitPointer,
+    Carrier::ExprEntryValueNested,
+    Carrier::ExprParameterRef,
+    Carrier::ExprRegvalType,
+    Carrier::ExprDerefType,
+    Carrier::ExprConvert,
+    Carrier::ExprReinterpret,
+    Carrier::LocListDefault,
+    Carrier::LocListEmptyRange,
+    Carrier::LocListTombstone,
+    Carrier::LocListSecondEntry,
+];
+fn is_more(c: Carrier) -> bool {
+    MORE_CARRIERS.contains(&c)
 }
 const CARRIERS: [Carrier; 12] = [
     Carrier::None,
@@ -198,6 +227,51 @@ fn build_case(c: &mut Case) -> Option<Model> {
                 loclist(&mut units, su, sd, vec![Op::Call4(tgt(dd, su))]);
                 c.edges.push((src, dst));
             }
+            Carrier::ExprImplicitPointer => {
+                push(&mut units, su, sd, at(at_loc, AV::Expr(exprform, vec![Op::ImplicitPointer(tgt(dd, su), 0)])));
+                c.edges.push((src, dst));
+            }
+            Carrier::ExprEntryValueNested => {
+                if !same_unit {
+                    return None;
+                }
+                push(&mut units, su, sd, at(at_loc, AV::Expr(exprform, vec![Op::EntryValue(vec![Op::RegvalType(1, tgt(dd, su))]), Op::Simple(OP_STACK_VALUE)])));
+                c.edges.push((src, dst));
+            }
+            Carrier::ExprParameterRef | Carrier::ExprRegvalType | Carrier::ExprDerefType | Carrier::ExprConvert | Carrier::ExprReinterpret => {
+                if !same_unit {
+                    return None;
+                }
+                let t = tgt(dd, su);
+                let ops = match carrier {
+                    Carrier::ExprParameterRef => vec![Op::ParameterRef(t), Op::Simple(OP_STACK_VALUE)],
+                    Carrier::ExprRegvalType => vec![Op::RegvalType(2, t), Op::Simple(OP_STACK_VALUE)],
+                    Carrier::ExprDerefType => vec![Op::Breg(1, 0), Op::DerefType(4, t), Op::Simple(OP_STACK_VALUE)],
+                    Carrier::ExprConvert => vec![Op::Lit(1), Op::Convert(Some(t)), Op::Simple(OP_STACK_VALUE)],
+                    _ => vec![Op::Lit(1), Op::Reinterpret(Some(t)), Op::Simple(OP_STACK_VALUE)],
+                };
+                push(&mut units, su, sd, at(at_loc, AV::Expr(exprform, ops)));
+                c.edges.push((src, dst));
+            }
+            Carrier::LocListDefault | Carrier::LocListEmptyRange | Carrier::LocListTombstone | Carrier::LocListSecondEntry => {
+                let ops = vec![Op::CallRef(tgt(dd, su))];
+                let plain = vec![Op::Reg(3)];
+                let top = if cfg.asz >= 8 { u64::MAX } else { (1u64 << (8 * cfg.asz as u32)) - 1 };
+                let l = match (carrier, cfg.version >= 5) {
+                    (Carrier::LocListDefault, true) => vec![Lle::StartEnd(0x1000, 0x1010, plain), Lle::DefaultLocation(ops)],
+                    (Carrier::LocListDefault, false) => return None,
+                    (Carrier::LocListEmptyRange, true) => vec![Lle::StartEnd(0x1000, 0x1000, ops), Lle::StartEnd(0x1000, 0x1010, plain)],
+                    (Carrier::LocListEmptyRange, false) => vec![Lle::Pair(0x1000, 0x1000, ops), Lle::Pair(0x1000, 0x1010, plain)],
+                    (Carrier::LocListTombstone, true) => vec![Lle::StartEnd(top - 1, top, ops), Lle::StartEnd(0x1000, 0x1010, plain)],
+                    (Carrier::LocListTombstone, false) => vec![Lle::Pair(top - 1, top, ops), Lle::Pair(0x1000, 0x1010, plain)],
+                    (_, true) => vec![Lle::StartEnd(0x1000, 0x1010, plain), Lle::StartLength(0x2000, 0x10, ops)],
+                    (_, false) => vec![Lle::Pair(0x1000, 0x1010, plain), Lle::Pair(0x2000, 0x2010, ops)],
+                };
+                units[su].loclists.push(l);
+                let idx = units[su].loclists.len() - 1;
+                units[su].dies[sd].attrs.push(at(at_loc, AV::Locs(secoff, idx)));
+                c.edges.push((src, dst));
+            }
             Carrier::OutOfBounds => {
                 if dst != 0 {
                     return None;
@@ -330,7 +404,9 @@ fn check_case(ctx: &mut Ctx, c: &mut Case, stepwise: bool) {
     let entry = if stepwise { "convert_with_filter+stepwise" } else { "convert_with_filter+ConvertUnit::convert" };
     // generator-side trigger tag (see c12::check_dwarf): a recorded finding only covers inputs with it
     let root_src = c.src == 0 && c.carrier != Carrier::None || matches!(c.second, Some((_, 0, _)));
-    let fk = |k: &str| if root_src { format!("{}[reference-from-unit-root]", k) } else { k.to_string() };
+    let more = is_more(c.carrier);
+    let carrier_tag = format!("{:?}", c.carrier);
+    let fk = |k: &str| if root_src { format!("{}[reference-from-unit-root]", k) } else if more { format!("{}[{}]", k, carrier_tag) } else { k.to_string() };
     let din = match dump_by_name(&b.secs, big) {
         Ok(d) => d,
         Err(e) => {
@@ -501,6 +577,10 @@ fn class_assignments(n: usize, alphabet: &[Class]) -> u64 {
 }
 
 fn sub_n(tier: Tier, n: usize, alphabet: &'static [Class], carriers: &'static [Carrier], cfgs: Vec<Cfg>, max_split: u64, routes: &'static [bool], only_pair: Option<(usize, usize)>) -> Sub {
+    sub_named(&format!("filter-n{}", n), tier, n, alphabet, carriers, cfgs, max_split, routes, only_pair)
+}
+
+fn sub_named(name: &str, tier: Tier, n: usize, alphabet: &'static [Class], carriers: &'static [Carrier], cfgs: Vec<Cfg>, max_split: u64, routes: &'static [bool], only_pair: Option<(usize, usize)>) -> Sub {
     let shapes = space::forests(n);
     let nclass = class_assignments(n, alphabet);
     // unit split: 0 = one unit; t >= 1 = top-level trees from the t-th on go to a second unit
@@ -521,7 +601,7 @@ fn sub_n(tier: Tier, n: usize, alphabet: &'static [Class], carriers: &'static [C
         cfgs.len(),
         n
     );
-    Sub::new(&format!("filter-n{}", n), len, &bound, move |ctx, i| {
+    Sub::new(name, len, &bound, move |ctx, i| {
         let mut x = Mix(i);
         let rot_digit = x.take(nrot) as usize;
         let stepwise = *x.pick(routes);
@@ -637,6 +717,8 @@ pub fn def(tier: Tier) -> CheckDef {
             subs.push(sub_n(tier, 2, &ALPHA4, &CARRIERS, vec![c4, c5], 2, &BOTH, None));
             subs.push(sub_n(tier, 3, &ALPHA4, &CARRIERS, vec![c4, c5], 3, &BOTH, None));
             subs.push(sub_n(tier, 4, &ALPHA3, &CORE_CARRIERS, vec![c4], 4, &ONE, None));
+            subs.push(sub_named("filter-more-carriers-n1", tier, 1, &ALPHA3, &MORE_CARRIERS, vec![c3, c4, c5], 1, &BOTH, None));
+            subs.push(sub_named("filter-more-carriers-n2", tier, 2, &ALPHA3, &MORE_CARRIERS, vec![c3, c4, c5], 2, &BOTH, None));
         }
         Tier::Thorough => {
             subs.push(sub_n(tier, 1, &ALPHA4, &CARRIERS, vec![c3, c4, c5], 1, &BOTH, None));
@@ -646,6 +728,9 @@ pub fn def(tier: Tier) -> CheckDef {
             subs.push(sub_n(tier, 5, &ALPHA3, &N5_CARRIERS, vec![c4], 1, &ONE, None));
             subs.push(sub_n(tier, 6, &ALPHA3, &NOREF, vec![c4], 0, &ONE, Some((0, 0))));
             subs.push(sub_two_edges(c5));
+            subs.push(sub_named("filter-more-carriers-n1", tier, 1, &ALPHA4, &MORE_CARRIERS, vec![c3, c4, c5], 1, &BOTH, None));
+            subs.push(sub_named("filter-more-carriers-n2", tier, 2, &ALPHA4, &MORE_CARRIERS, vec![c3, c4, c5], 2, &BOTH, None));
+            subs.push(sub_named("filter-more-carriers-n3", tier, 3, &ALPHA3, &MORE_CARRIERS, vec![c3, c4, c5], 3, &BOTH, None));
         }
     }
     CheckDef {
@@ -672,6 +757,10 @@ pub fn def(tier: Tier) -> CheckDef {
             "c19:carrier:CycleRef4".into(),
             "c19:carrier:LocListCallRef".into(),
             "c19:carrier:OutOfBounds".into(),
+            "c19:carrier:ExprImplicitPointer".into(),
+            "c19:carrier:ExprEntryValueNested".into(),
+            "c19:carrier:LocListDefault".into(),
+            "c19:carrier:LocListTombstone".into(),
         ],
     }
 }
